@@ -14,6 +14,7 @@ def answer (line : String) : String :=
     | "lds" => ldsLine toks
     | "fab" => fabLine toks
     | "ao" => aoLine toks
+    | "ps" => psLine toks
     | _ => "bad-family"
   | [] => "bad-line"
 
